@@ -205,6 +205,22 @@ def gen_one(rng, i, tier):
             sm = rng.choice(["replacement", "single_pass", "dynamic"])
             st = rng.choice([None, "by_label", "by_group", "by_group"])
             smp = {"type": "builtin", "sampling_method": sm, "stratified": st, "ratio": None, "smoothing": False}
+    if kind == "scores" and rng.random() < 0.12:
+        # a user subclass of Scores that overrides one metric and adds another, queried BY NAME: the name is resolved on the
+        # object's own class, also for the samples (which the built-in samplers return as plain Scores)
+        inp["subclass"] = True
+        nm = rng.choice(["tpr", "spread", "fnr", "spread"])
+        inp["metric"] = metric = ({"type": "name", "name": nm, "kwargs": {"scale": rng.choice([0.5, 2.0, 3.0])}} if nm == "spread"
+                                  else {"type": "name", "name": nm, "kwargs": {"threshold": _thr_kw(rng, allv)}})
+    elif kind == "scores" and rng.random() < 0.06:
+        # an object on which the metric is undefined (no positives: TPR is 0/0) while every sample has positives: the
+        # replicates and the interval are what sampler and formula produce, whatever the point estimate is
+        inp["pos"] = []
+        inp["ep"] = 0
+        inp["metric"] = metric = rng.choice([
+            {"type": "name", "name": rng.choice(["tpr", "fnr"]), "kwargs": {"threshold": _thr_kw(rng, allv, allow_empty=False)}},
+            {"type": "callable", "name": "scalar", "kwargs": {}}, {"type": "callable", "name": "nancol", "kwargs": {}}])
+        smp = {"type": "foreign"}
     inp["sampler"] = smp
     inp["nb"] = rng.choice([1, 2, 3, 3, 4, 5, 6, 8, 12])
     inp["method"] = rng.choice(METHODS)
@@ -229,7 +245,21 @@ def _make_obj(inp):
     pos = np.array(inp["pos"], dtype=float)
     neg = np.array(inp["neg"], dtype=float)
     caller = [pos, neg]
-    if inp["kind"] == "scores":
+    if inp["kind"] == "scores" and inp.get("subclass"):
+        class MyScores(Scores):
+            """user subclass: overrides tpr (defined through the parent's fnr, written so that it also works when the
+            unbound function is applied to a plain Scores sample) and adds the metric `spread`"""
+
+            def tpr(self, threshold):
+                return 1.0 - 0.5 * np.asarray(Scores.fnr(self, threshold))
+
+            def spread(self, scale=1.0):
+                lo = float(self.pos[0]) if len(self.pos) else math.nan
+                hi = float(self.pos[-1]) if len(self.pos) else math.nan
+                return np.array([(hi - lo) * scale, float(len(self.neg))])
+
+        obj = MyScores(pos, neg, nb_easy_pos=inp["ep"], nb_easy_neg=inp["en"], score_class=inp["sc"], equal_class=inp["ec"])
+    elif inp["kind"] == "scores":
         obj = Scores(pos, neg, nb_easy_pos=inp["ep"], nb_easy_neg=inp["en"], score_class=inp["sc"], equal_class=inp["ec"])
     else:
         pg, ng = np.array(inp["pg"]), np.array(inp["ng"])
@@ -351,7 +381,10 @@ def _derive(obj, kind, k):
     pos, neg = obj.pos, obj.neg
     pg = getattr(obj, "pos_groups", None)
     ng = getattr(obj, "neg_groups", None)
-    if kind == "drop":
+    if kind == "foreign":
+        pos = np.array([k / 4.0, 1.0 + k / 8.0, 2.0, 2.0 + (k % 3)])
+        neg = neg - (k + 1) / 16.0
+    elif kind == "drop":
         if k % 2 == 0:
             i = (k // 2) % len(pos)
             pos = np.delete(pos, i)
@@ -428,11 +461,21 @@ def build(inp) -> Case:
     kwargs = _decode_kwargs(inp["metric"]["kwargs"])
     kwargs_before = copy.deepcopy(kwargs)
     metric_arg, apply_metric, rec = _make_metric(inp["metric"], kwargs)
+    if inp["metric"]["type"] == "name":
+        # "metric names resolved on the object's own class": the function found on type(obj), applied to whatever
+        # object the sampler returned
+        _fn = getattr(type(obj), inp["metric"]["name"], None)
+        if _fn is not None:
+            apply_metric = lambda s_, _fn=_fn: _fn(s_, **kwargs)  # noqa: E731
     mspec, stype = inp["metric"], inp["sampler"]["type"]
     nb, method, alpha, seed = inp["nb"], inp["method"], inp["alpha"], inp["seed"]
     mdesc = f"{mspec['type']}:{mspec['name']}({','.join(sorted(mspec['kwargs']))})"
     desc = f"{inp['kind']} metric {mdesc} sampler {stype} nb {nb} method {method}"
     tags = [inp["kind"], "sampler=" + stype, "metric=" + mspec["type"], method]
+    if inp.get("subclass"):
+        tags.append("user-subclass")
+    if not inp["pos"]:
+        tags.append("metric-undefined-on-original-only")
     evals = [0]
 
     def fail(clause, detail, sig):
@@ -577,7 +620,7 @@ def build(inp) -> Case:
     identity = False
 
     # ------------------------------------------------------------------ counting / identity
-    if stype in ("drop", "shift", "identity"):
+    if stype in ("drop", "shift", "identity", "foreign"):
         identity = stype == "identity"
         smp = _Counting(obj, stype)
         r = common.call(obj.bootstrap_metric, metric_arg, config(smp), **kwargs)
